@@ -410,24 +410,55 @@ func (c *Ctx) Gate(fn *ssa.Function, spec string, tgt Target, opt Opt) {
 				continue
 			}
 		}
-		var bad []*ssa.BasicBlock
-		und := 0
+		und, nbad := 0, 0
+		reached := map[*ssa.BasicBlock]bool{}
 		for _, t := range tests {
 			if !t.Dec {
 				und++
 				continue
 			}
-			if !back[t.Bad] {
-				bad = append(bad, t.Bad.To())
-			}
 			allGood[t.Good] = true
+			if back[t.Bad] {
+				continue
+			}
+			nbad++
+			// The bad successor is entered only through the bad edge here; flood.
+			// While the tested value is not recomputed, a later branch on the very
+			// same value (`if err != nil {..}; ...; if err == nil {target}`) cannot
+			// take its good edge: those edges are cut until the flood re-enters the
+			// block that defines the value.
+			op := testedOperand(t.If.Cond, r, 0)
+			extra := EdgeSet{}
+			var def *ssa.BasicBlock
+			if op != nil {
+				if ins, ok := op.(ssa.Instruction); ok {
+					def = ins.Block()
+				}
+			}
+			if def != nil {
+				for _, t2 := range tests {
+					if t2.If != t.If && t2.Dec && testedOperand(t2.If.Cond, r, 0) == op {
+						extra[t2.Good] = true
+					}
+				}
+				for i := range def.Succs {
+					extra[Edge{def, i}] = true
+				}
+			}
+			ra := ReachFrom([]*ssa.BasicBlock{t.Bad.To()}, union(union(cut, back), extra))
+			for b := range ra {
+				reached[b] = true
+			}
+			if def != nil && ra[def] {
+				for b := range ReachFrom([]*ssa.BasicBlock{def}, union(cut, back)) {
+					reached[b] = true
+				}
+			}
 		}
-		if und > 0 && len(bad) == 0 && len(tests) == und {
+		if und > 0 && nbad == 0 && len(tests) == und {
 			c.Und(k1, fnName, "verdict of "+what+" obeyed before "+tgt.Name, site, "branch polarity on the result could not be decided")
 			continue
 		}
-		// the bad successor is entered only through the bad edge here; flood
-		reached := ReachFrom(bad, union(cut, back))
 		var hit []string
 		for _, ti := range tins {
 			if !reached[ti.Block()] {
@@ -465,6 +496,35 @@ func (c *Ctx) Gate(fn *ssa.Function, spec string, tgt Target, opt Opt) {
 	} else {
 		c.OK(k2, fnName, tgt.Name+" only after "+what+" succeeded", c.At(sites[0]), fmt.Sprintf("%d target instruction(s), all cut off when the good edges are removed", len(tins)))
 	}
+}
+
+// testedOperand: the call result (resolved SSA value) a simple branch condition
+// compares with a constant, or nil when the condition has another shape.
+func testedOperand(v ssa.Value, r *CallRes, depth int) ssa.Value {
+	if depth > 4 {
+		return nil
+	}
+	v = Resolve(v)
+	if r.isRes(v) != 0 {
+		return v
+	}
+	switch x := v.(type) {
+	case *ssa.UnOp:
+		if x.Op == token.NOT {
+			return testedOperand(x.X, r, depth+1)
+		}
+	case *ssa.BinOp:
+		l, rr := Resolve(x.X), Resolve(x.Y)
+		for i := 0; i < 2; i++ {
+			if r.isRes(l) != 0 {
+				if _, ok := rr.(*ssa.Const); ok {
+					return l
+				}
+			}
+			l, rr = rr, l
+		}
+	}
+	return nil
 }
 
 // condUses: the condition mentions a result of the given kind.
